@@ -448,6 +448,42 @@ def run(R):
             R.check(st == 'ok' and got == want, 'preserialised-polymorphic-field-differs', f'{n}.{f} given as already serialised bytes is not written as they are: {mon.srepr(got, 60)}',
                     {'constructor': n, 'field': f})
             R.count('preserialised_fields')
+        # ---- several objects in one bytes field (the usual framing of liteServer.query.data = waitMasterchainSeqno + the query, adnl.message.query.query =
+        # overlay.query + the node query): the parser hands the field back as the list of objects, and what the parser returns must serialise to the bytes it came from
+        inner_names = [n for n in ('liteServer.getTime', 'liteServer.getMasterchainInfo', 'liteServer.getVersion', 'liteServer.waitMasterchainSeqno', 'dht.ping', 'tcp.ping',
+                                   'overlay.query', 'adnl.ping') if n in ctors and n in supported]
+        carriers = [(n, f) for n, f in (('liteServer.query', 'data'), ('adnl.message.query', 'query'), ('adnl.message.answer', 'answer'), ('adnl.message.custom', 'data'))
+                    if n in ctors and not (n in getattr(lib_auto, 'untouchables', {}) and f in lib_auto.untouchables[n])]
+        for outer, f in carriers:
+            for count in (2, 3, 4):
+                for rep in range(6):
+                    try:
+                        inners = [G.obj(ctors[rng.choice(inner_names)], 1, True, None) for _ in range(count)]
+                        v = G.obj(ctors[outer], 1, True, None)
+                    except RecursionError:
+                        continue
+                    v[f] = b''.join(codec.encode(x) for x in inners)
+                    want = codec.encode(v)
+                    W = {'constructor': outer, 'field': f, 'objects': [x['@type'] for x in inners]}
+                    st, res = mon.call(lib_auto.deserialize, want)
+                    R.counters['oracle_evaluations'] += 1
+                    R.count('multi_object_bytes_fields')
+                    if st == 'exc' or not isinstance(res, tuple) or res[1] != len(want):
+                        R.violation('multi-object-bytes-field-parse', f'{outer}.{f} holding {count} objects: parse raised / did not consume all bytes: {mon.srepr(res, 60)}', W)
+                        continue
+                    got_field = res[0].get(f)
+                    if isinstance(got_field, list):
+                        R.count('multi_object_bytes_fields_as_list')
+                        same = len(got_field) == count and all(first_diff(norm_obj(codec, ctors[x['@type']], x), norm_obj(codec, ctors[x['@type']], y)) is None
+                                                                for x, y in zip(inners, got_field) if isinstance(y, dict) and y.get('@type') == x['@type'])
+                        R.check(same and all(isinstance(y, dict) and y.get('@type') == x['@type'] for x, y in zip(inners, got_field)), 'multi-object-bytes-field-values',
+                                f'{outer}.{f}: the objects parsed out of the field differ from those encoded: {mon.srepr(got_field, 80)}', W)
+                    else:
+                        R.check(bytes(got_field) == v[f], 'multi-object-bytes-field-values', f'{outer}.{f} came back neither as the objects nor as the bytes: {mon.srepr(got_field, 60)}', W)
+                    st2, back = mon.call(lib_auto.serialize, lib_auto.get_by_name(outer), res[0])
+                    R.check(st2 == 'ok' and back == want, 'parsed-value-does-not-serialise-back-multi-object-bytes',
+                            f'{outer}.{f} holding {count} objects: serialising what the parser returned gives {mon.srepr(back, 50)} ({len(back) if st2 == "ok" else "-"} bytes, want {len(want)})', W)
+                    R.case(mon.fp('multiobj', outer, count, rep))
         sdir = _os.path.join(mon.REPO, 'pytoniq_core', 'tl', 'schemas')
         loaded = {}
         for fn in sorted(_os.listdir(sdir)):
@@ -485,6 +521,8 @@ def run(R):
     R.floor('alternative_call_forms', 100)
     R.floor('reordered_dict_cases', 100)
     R.floor('type_forms', 12, 'set')
+    if R.shard == 0:
+        R.floor('multi_object_bytes_fields_as_list', 10)
 
 
 def _blockid(R, BlockId, BlockIdExt, codec, lib, wc, shard, seqno, rh, fh, W):
